@@ -34,14 +34,13 @@ class _Mon:
             return (q[0] if len(q) > 1 else "?", sm.__name__, im.__name__)
 
         def transition(self, inputSymbol):
+            k = names(self, inputSymbol)      # before the call: the state the input arrived in
             try:
                 r = orig(self, inputSymbol)
             except ac.NoTransition:
-                k = names(self, inputSymbol)
                 if k is not None:
                     mon.notrans.append(k)
                 raise
-            k = names(self, inputSymbol)
             if k is not None:
                 mon.cov[k] += 1
             return r
